@@ -348,7 +348,7 @@ def gen_cases(ctx, budget, names):
                             out.append(_case(name, id=pick_id(), method=J.cps(method), params=params, text=pick_text(), exc=ek, opts=rng.random() < 0.5))
             else:
                 scen = {
-                    "handle_message": ["unknown", "no-method", "custom-result", "custom-raises", "ping", "initialize"],
+                    "handle_message": ["unknown", "no-method", "custom-result", "custom-raises", "ping", "initialize", "reentrant", "reentrant-raises"],
                     "method:ping": ["ping"], "method:initialize": ["initialize"], "method:notifications/initialized": ["initialized"],
                 }.get(short)
                 if scen is None:
@@ -357,7 +357,7 @@ def gen_cases(ctx, budget, names):
                 for sc in scen:
                     method = {"ping": "ping", "initialize": "initialize", "initialized": "notifications/initialized"}.get(sc, "x/custom")
                     for i in ids:
-                        plist = [None, SPECIAL_PAYLOADS[0]] if sc != "custom-result" else FALSY + [{"a": [None]}, TWINS] + SPECIAL_PAYLOADS[:3]
+                        plist = [None, SPECIAL_PAYLOADS[0]] if sc not in ("custom-result", "reentrant") else FALSY + [{"a": [None]}, TWINS] + SPECIAL_PAYLOADS[:3]
                         for p in plist:
                             params = None
                             if sc == "initialize":
@@ -446,6 +446,8 @@ def gen_cases(ctx, budget, names):
             kinds = R.CREATED_INNERS + R.DIRECT_INNERS + (R.STDIO_ONLY_INNERS if "stdio" in name else [])
             for n in ((99, 100, 101) if quick and "stdio" in name else (101,) if quick else (1, 99, 100, 101, 102, 250, 1000)):  # around the 100-slot memory streams
                 out.append(_case(name, inner="burst", n=n, method=pick_text(), params=rng.choice([None, TWINS]), id={"i": 0}))
+            for n in ((100_000, 300_000) if quick else (100_000, 300_000, 1_000_000, 3_000_000)):  # far above the 64 KiB chunks of pipes and streams
+                out.append(_case(name, inner="big-between-small", n=n, method=pick_text(), id=pick_id()))
             big = {"o": [[J.cps("t"), {"s": HOSTILE[-1]}], [J.cps("n"), None]]}  # ~100 kB in one message (64 KiB pipe chunks)
             for inner in ("request", "direct-notification", "dict", "response"):
                 out.append(_case(name, inner=inner, id=pick_id(), method=pick_text(), params=big, result=big, code=0, message=HOSTILE[-1], data=big))
@@ -474,6 +476,16 @@ def gen_cases(ctx, budget, names):
                 cs = by_em[em_name]
                 for c in rng.sample(cs, min(len(cs), 2 if quick else 8)):
                     out.append(_case(name, inner={"emitter": c["emitter"], "args": c["args"]}))
+    det = {"ctor", "server", "dict", "literal", "convert", "answer"}
+    seen_rep = set()
+    for i, c in enumerate(out):
+        fam_ = D.get(c["emitter"], ("",))[0]
+        b = (c["emitter"], branch_of(c))
+        if fam_ in det and (i % 9 == 0 or b not in seen_rep):
+            c["repeat_mutate"] = 1 + (i % 3 == 0)   # emit, let a consumer edit the emitted payload in place, emit again
+            seen_rep.add(b)
+        if i % 37 == 0:
+            c["env"] = {"SKIP_JSONRPC_VALIDATION": "true"}  # the documented switch of the legacy class; emitters must not depend on it
     seen_branch = set()
     for i, c in enumerate(out):
         b = (c["emitter"], branch_of(c))
@@ -693,6 +705,17 @@ def without_stale_token(caller_t):
     return strip_token(caller_t, caller_t)[0]
 
 
+def without_error_text(w):
+    if not (isinstance(w, dict) and "o" in w):
+        return w
+    out = []
+    for k, v in w["o"]:
+        if R.s_(k) == "error" and isinstance(v, dict) and "o" in v:
+            v = {"o": [[k2, v2] for k2, v2 in v["o"] if R.s_(k2) != "message"]}
+        out.append([k, v])
+    return {"o": out}
+
+
 def canon_opt(t):
     return None if t is None else canon(t)
 
@@ -705,7 +728,7 @@ def expected_payload(case):
     if fam == "ctor" or fam == "transport":
         inner = a.get("inner")
         if fam == "transport":
-            if isinstance(inner, dict) or inner in ("list", "burst"):
+            if isinstance(inner, dict) or inner in ("list", "burst", "big-between-small"):
                 return []
             short = inner_ctor(inner)
             if "legacy-response" in inner:
@@ -760,7 +783,7 @@ def expected_payload(case):
         return out
     if fam == "literal" and a.get("id") is not None and getattr(R.drivers()[em][1], "id_direct", False):
         return [("id", a["id"])]
-    if fam == "server" and a.get("scenario") == "custom-result":
+    if fam == "server" and a.get("scenario") in ("custom-result", "reentrant"):
         r = a.get("payload")
         return [("result", {"o": []} if r is None else r), ("id", a.get("id"))]
     if fam == "server":
@@ -825,6 +848,14 @@ class Emitters(Suite):
                 r = check_emitted(case, e, form)
                 if r is not None:
                     return r
+        if o.get("repeated") and o.get("first_wires") is not None:
+            last = [e.get("dump", {}).get("wire") for e in o["emitted"]]
+            strip = (lambda w: without_error_text(w)) if case["args"].get("exc") else (lambda w: w)  # exception texts may carry object addresses
+            if "create_request" in case["emitter"] and case["args"].get("id") is None:
+                strip = lambda w: {"o": [[k, v] for k, v in w["o"] if R.s_(k) != "id"]} if isinstance(w, dict) and "o" in w else w  # noqa: E731 (a fresh uuid each time)
+            if [canon_opt(strip(x)) for x in last] != [canon_opt(strip(x)) for x in o["first_wires"]]:
+                return ("emission-depends-on-history", f"{case['emitter']}: called again with the same arguments after a consumer edited the payload of the "
+                        f"earlier emission in place, it emits {last} instead of {o['first_wires']}", {"emitted": o["first_wires"]})
         ex = o.get("extra") or {}
         if ex.get("independent") is False:
             return ("instances-interfere", f"{case['emitter']} ({case['args'].get('kind')}): {ex.get('detail')}", {"independent": True})
@@ -1022,7 +1053,7 @@ def model_line_for(case, o):
         inner = a.get("inner")
         if isinstance(inner, dict):
             return model_line_for({"emitter": inner["emitter"], "args": inner.get("args") or {}}, o)
-        if inner in ("dict-extra", "list", "burst") or (inner in R.STDIO_ONLY_INNERS and "stdio" not in em):
+        if inner in ("dict-extra", "list", "burst", "big-between-small") or (inner in R.STDIO_ONLY_INNERS and "stdio" not in em):
             return None  # extra members / several messages / nothing sent: property oracle only
         sh = inner_ctor(inner)
         if "legacy-response" in inner:  # a dict result, `{}` otherwise
